@@ -388,7 +388,7 @@ def rule_tokens(rep, c, sfx):
                     sites["End"] += 1
                     # End.start_token_index == index
                     f = {x["name"]: x["e"] for x in e.node["fields"]}
-                    sid = hirq.local_id(f.get("start_token_index", {}))
+                    sid = hirq.root_let(hirq.local_id(f.get("start_token_index", {})), lets)
                     ok = False
                     if sid in lets:
                         init = peel(lets[sid][0])
@@ -405,7 +405,7 @@ def rule_tokens(rep, c, sfx):
                              and peel(x.node["l"]).get("name") == "end_token_index"]
                     okp = False
                     if patch:
-                        nid = hirq.local_id(patch[-1].node["r"])
+                        nid = hirq.root_let(hirq.local_id(patch[-1].node["r"]), lets)
                         if nid in lets:
                             init = peel(lets[nid][0])
                             li = hirq.index_of(ev, lambda x: x.kind == "let" and x.node is lets[nid][1])
@@ -421,7 +421,7 @@ def rule_tokens(rep, c, sfx):
                     and (hirq.place(e.node["recv"]) or (0, 0, []))[2][-1:] == ["queue"]:
                 trunc_guard.add(struct_guards(ctx, e.node))
                 sites["truncate"] += 1
-                tid = hirq.local_id(e.node["args"][0])
+                tid = hirq.root_let(hirq.local_id(e.node["args"][0]), lets)
                 eid = None
                 if tid not in lets or kind(peel(lets[tid][0])) != "MethodCall" or \
                         peel(lets[tid][0]).get("path") != "alloc::vec::Vec::len":
@@ -806,6 +806,10 @@ def offset_source(a, lets, fn, depth=0):
                 if arm["body"].get("ty") != "!"]
         if srcs and all(srcs):
             return "match(" + ",".join(srcs) + ")"
+    if k == "If" and e.get("else") is not None:
+        srcs = [offset_source(x, lets, fn, depth + 1) for x in (e["then"], e["else"]) if x.get("ty") != "!"]
+        if srcs and all(srcs):
+            return "if(" + ",".join(srcs) + ")"
     if k == "Block" and e.get("expr") is not None:
         return offset_source(e["expr"], lets, fn, depth + 1)
     return None
